@@ -18,17 +18,21 @@
 (*  config/docker.go:dockerAuthToHost   -> DockerAuthHost                  *)
 (*  config/credhelper.go:list           -> DockerStoreHost                 *)
 (*  regclient.go:New                    -> Init (Docker Hub injection)     *)
-(*  regclient.go:WithConfigHost(s)      -> ApplyHost   (hostLoad/hostSet)  *)
-(*  regclient.go:WithConfigHostDefault  -> ApplyDefault                    *)
-(*  regclient.go:WithDockerCredsFile    -> ApplyDocker (hostLoad/hostSet)  *)
+(*  regclient.go:WithConfigHost(s),                                        *)
+(*  WithConfigHostDefault,                                                 *)
+(*  WithDockerCredsFile                 -> StepSrc (one arm per option),   *)
+(*                                         action Apply                    *)
 (*  regclient.go:hostLoad               -> HostLoadEntry                   *)
 (*  regclient.go:hostSet                -> HostSet                         *)
 (*  regclient.go:New (hostList) +                                          *)
 (*  scheme/reg/reg.go:WithConfigHosts   -> BuiltSet (last writer wins on   *)
 (*                                         equal Host.Name, map order)     *)
 (*  scheme/reg/reg.go:hostGet           -> RegHostGet                      *)
+(*  types/ref/ref.go:New (registry)     -> RefNew                          *)
 (*  internal/reghttp/http.go:getHost,                                      *)
 (*  Resp.next (url, mirrors, auth)      -> ObsOf / PingObs / HeadObs       *)
+(*  internal/reghttp/http.go:getHost    -> TlsAfter / TlsObs (TLS client   *)
+(*                                         config per host / shared)       *)
 (*  cmd/regctl/config.go:ConfigLoadConfFile -> RegctlLoadHost              *)
 (*  cmd/regctl/root.go:newRegClient     -> RegctlSources (option order)    *)
 (*                                                                         *)
@@ -38,7 +42,13 @@
 (*                 decides to unset an existing credential helper          *)
 (*   "hubDefault"  New creates the Docker Hub entry after the options, so  *)
 (*                 that a WithConfigHostDefault applies to it              *)
-(*   "legacyAlias" parseName knows index.docker.io as a Docker Hub alias   *)
+(*   "hubHostname" hostLoad leaves an empty Hostname of a Docker Hub entry  *)
+(*                 empty (as found it fills in registry-1.docker.io, which *)
+(*                 then overrides a hostname configured earlier)           *)
+(*   "cloneTransport" reghttp.getHost clones a transport given by the user  *)
+(*                 before it stores a host's TLS settings in it            *)
+(*   "legacyAlias" parseName and hostLoad know index.docker.io as a Docker *)
+(*                 Hub alias (types/ref already maps it to docker.io)      *)
 (*                                                                         *)
 (* Deliberate deviations: see HostConfDefs (finite name universe, string   *)
 (* functions as tables, abstract APIOpts / Mirrors / durations); the order *)
@@ -149,11 +159,13 @@ HostSet(hs, def, e) ==
   IF e.name \in DOMAIN hs THEN [hs EXCEPT ![e.name] = Merge(@, e)]
   ELSE hs @@ (e.name :> Merge(HostNewDefName(def, e.name), e))
 
+\* hostnames hostLoad replaces by registry-1.docker.io in an entry for Docker Hub
+HubHostnames == {DockerName, DockerAuth} \cup (IF "hubHostname" \in Fix THEN {} ELSE {""})
 HostLoadEntry(hs, def, e) ==
   IF e.name = "" THEN hs
-  ELSE IF e.name \in Docker3
+  ELSE IF e.name \in Docker3 \cup (IF "legacyAlias" \in Fix THEN {DockerLegacy} ELSE {})
        THEN HostSet(hs, def, [e EXCEPT !.name = DockerName,
-                                       !.hostname = IF e.hostname \in {"", DockerName, DockerAuth}
+                                       !.hostname = IF e.hostname \in HubHostnames
                                                     THEN DockerDNS ELSE e.hostname])
        ELSE HostSet(hs, def, e)
 
@@ -169,27 +181,29 @@ VARIABLES hosts,      \* RegClient.hosts while the options run: key -> host reco
           nopt        \* number of options applied
 dvars == <<hosts, def, nopt>>
 
-Init == /\ hosts = IF "hubDefault" \in Fix THEN NoHosts ELSE HostSet(NoHosts, NoDef, HubEntry)
-        /\ def = NoDef
+
+
+\* one configuration source applied to st = [hosts, def]
+StepSrc(st, s) ==
+  CASE s.k = "host" -> [st EXCEPT !.hosts = HostLoad(st.hosts, st.def, s.es, 1)]          \* WithConfigHost
+    [] s.k = "default" -> [st EXCEPT !.def = s.d]                                          \* WithConfigHostDefault
+    [] s.k = "docker" -> [st EXCEPT !.hosts = HostLoad(st.hosts, st.def, DockerHosts(s.dc), 1)]  \* WithDockerCredsFile
+RECURSIVE RunSrcs(_, _, _)
+RunSrcs(st, ss, i) == IF i > Len(ss) THEN st ELSE RunSrcs(StepSrc(st, ss[i]), ss, i + 1)
+NewState == [hosts |-> IF "hubDefault" \in Fix THEN NoHosts ELSE HostSet(NoHosts, NoDef, HubEntry), def |-> NoDef]
+
+Init == /\ hosts = NewState.hosts
+        /\ def = NewState.def
         /\ nopt = 0
 
-ApplyHost(es) == /\ hosts' = HostLoad(hosts, def, es, 1)
-                 /\ nopt' = nopt + 1
-                 /\ UNCHANGED def
-ApplyDefault(d) == /\ def' = d
-                   /\ nopt' = nopt + 1
-                   /\ UNCHANGED hosts
-ApplyDocker(dc) == /\ hosts' = HostLoad(hosts, def, DockerHosts(dc), 1)
-                   /\ nopt' = nopt + 1
-                   /\ UNCHANGED def
-
-Apply(s) == \/ s.k = "host" /\ ApplyHost(s.es)
-            \/ s.k = "default" /\ ApplyDefault(s.d)
-            \/ s.k = "docker" /\ ApplyDocker(s.dc)
+Apply(s) == LET st == StepSrc([hosts |-> hosts, def |-> def], s) IN
+            /\ hosts' = st.hosts
+            /\ def' = st.def
+            /\ nopt' = nopt + 1
 
 \* end of New: with "hubDefault" the Docker Hub entry is created now unless an option made it
 FinalHosts(hs, d) == IF "hubDefault" \in Fix /\ DockerName \notin DOMAIN hs
-                     THEN HostSet(hs, d, HubEntry) ELSE hs
+                     THEN hs @@ (DockerName :> HostNewDefName(d, DockerName)) ELSE hs
 
 \* reg.WithConfigHosts: r.hosts[host.Name] = host over a list in map order; entries whose keys
 \* differ but whose Name is equal overwrite each other, any of them may survive
@@ -224,10 +238,49 @@ HeadObs(rh, d, r) ==
   LET h == RegHostGet(rh, d, r) IN
   {ObsOf(h)} \cup {ObsOf(RegHostGet(rh, d, m)) : m \in MirrorSet(h.mirrors)}
 
+\* types/ref/ref.go:New maps the registry of an image reference: "", registry-1.docker.io and
+\* index.docker.io become docker.io (ref.NewHost, used for a ping, keeps the name as written)
+RefNew(r) == IF r \in {"", DockerDNS, DockerLegacy} THEN DockerName ELSE r
+
 \* all observation sets the options applied so far can lead to (one per surviving-entry choice)
 ObsSetsOf(hs, d, kind, r) ==
-  {IF kind = "ping" THEN PingObs(rh, d, r) ELSE HeadObs(rh, d, r) : rh \in BuiltSet(FinalHosts(hs, d))}
+  {IF kind = "ping" THEN PingObs(rh, d, r) ELSE HeadObs(rh, d, RefNew(r)) : rh \in BuiltSet(FinalHosts(hs, d))}
 ObsSets(kind, r) == ObsSetsOf(hosts, def, kind, r)
+
+\* ---------------------------------------- internal/reghttp/http.go:getHost (TLS)
+\* The TLS client configuration a connection is made with.  getHost builds it per host from a
+\* clone of the TLSClientConfig of the transport it was given and stores it back into that
+\* transport: a transport the user passed (reg.WithTransport / WithHTTPClient) is one object
+\* shared by all hosts ("shared"), the default transport is cloned per host ("default").
+\*   "cloneTransport" (repair): getHost clones a user transport before it changes it
+NoTlsCfg == [skip |-> FALSE, roots |-> {}, cert |-> ""]
+PairOK(h) == h.ccert # "" /\ h.ckey = KeyOf(h.ccert)
+NeedsTls(h) == h.tls = "insecure" \/ h.regcert # "" \/ (h.ccert # "" /\ h.ckey # "")
+HostTlsCfg(cur, h) ==
+  LET c1 == IF h.tls = "insecure" THEN [cur EXCEPT !.skip = TRUE]
+            ELSE [cur EXCEPT !.roots = IF h.regcert = "" THEN {} ELSE {h.regcert}]
+  IN IF PairOK(h) THEN [c1 EXCEPT !.cert = h.ccert] ELSE c1
+\* st = [tc : config of the shared transport, own : name -> config of the hosts created so far]
+TlsInitState == [tc |-> NoTlsCfg, own |-> [k \in {} |-> NoTlsCfg]]
+SharedLive(tmode) == tmode = "shared" /\ "cloneTransport" \notin Fix
+TlsAfter(st, h, tmode) ==
+  IF h.name \in DOMAIN st.own THEN st
+  ELSE LET from == IF SharedLive(tmode) THEN st.tc ELSE NoTlsCfg
+           cfg == IF NeedsTls(h) THEN HostTlsCfg(from, h) ELSE from
+       IN [tc |-> IF SharedLive(tmode) /\ NeedsTls(h) THEN cfg ELSE st.tc,
+           own |-> st.own @@ (h.name :> cfg)]
+TlsObs(st1, h, tmode) ==          \* st1 = state after getHost(h)
+  LET cfg == IF SharedLive(tmode) THEN st1.tc ELSE st1.own[h.name]
+      conn == IF h.tls = "disabled" THEN "plain"
+              ELSE IF cfg.skip \/ CertOf(h.hostname) \in cfg.roots THEN "tls-ok" ELSE "tls-verify-fail"
+  IN [addr |-> h.hostname, conn |-> conn, ccert |-> IF conn = "tls-ok" THEN cfg.cert ELSE ""]
+\* the observations of a sequence of pings rs on one client built from (hs, d)
+RECURSIVE TlsRun(_, _, _, _, _, _)
+TlsRun(rh, d, tmode, rs, i, st) ==
+  IF i > Len(rs) THEN <<>>
+  ELSE LET h == RegHostGet(rh, d, rs[i])
+           st1 == TlsAfter(st, h, tmode)
+       IN <<TlsObs(st1, h, tmode)>> \o TlsRun(rh, d, tmode, rs, i + 1, st1)
 
 \* ------------------------------------------------------------- cmd/regctl
 \* ConfigLoadConfFile: what the loader makes of the entry h stored under key k
@@ -241,12 +294,16 @@ RegctlLoadHost(k, h) ==
                      !.credhost = IF h1.credhost = k THEN DockerAuth ELSE h1.credhost]
      ELSE h1
 
-\* newRegClient: docker creds first, then the host default, then the hosts of the config file
-\* (conf = [docker : docker config or NoDef, def : host record or NoDef, hosts : Seq([k, h])])
+\* newRegClient: docker creds first, then the host default, then one WithConfigHost with the
+\* hosts of the config file followed by the --host flags
+\* (conf = [docker : docker config or NoDef, def : host record or NoDef, hosts : Seq([k, h]),
+\*          flags : Seq(host record with name, user, pass, tls)])
 RegctlSources(conf) ==
   (IF conf.docker = NoDef THEN <<>> ELSE <<[k |-> "docker", dc |-> conf.docker]>>)
   \o (IF conf.def = NoDef THEN <<>> ELSE <<[k |-> "default", d |-> conf.def]>>)
-  \o (IF Len(conf.hosts) = 0 THEN <<>>
+  \o (IF Len(conf.hosts) + Len(conf.flags) = 0 THEN <<>>
       ELSE <<[k |-> "host",
-              es |-> [i \in 1..Len(conf.hosts) |-> RegctlLoadHost(conf.hosts[i].k, conf.hosts[i].h)]]>>)
+              es |-> [i \in 1..Len(conf.hosts) |-> RegctlLoadHost(conf.hosts[i].k, conf.hosts[i].h)]
+                     \o conf.flags]>>)
+RegctlState(conf) == RunSrcs(NewState, RegctlSources(conf), 1)
 =============================================================================
